@@ -87,8 +87,8 @@ PROPS = {
    corpus=["parse.txt"], tables=["Gen/AstTables.v: ast_fields, span_parts"],
    assumptions=["spans inside the partial trees returned with a parse error are checked on the implementation only (the model builds no partial trees)"]),
  "C11": dict(
-   corr=[("walk", "walk", 6000, 300000)],
-   oracle=[("walk", "oracle-C11", 6000, 300000)],
+   corr=[("walk", "walk", 6000, 300000), ("walk-mut", "walk", 4000, 200000), ("eof", "walk", 600, 15000)],
+   oracle=[("walk", "oracle-C11", 6000, 300000), ("walk-mut", "oracle-C11", 4000, 200000), ("eof", "oracle-C11", 600, 15000)],
    oracle_for_stage={"walk": ["oracle-C11"]},
    corpus=["walk.txt"], tables=["Gen/AstTables.v: walk_children, ast_fields"]),
  "C12": dict(
